@@ -29,12 +29,12 @@ def correlation_centroid(im, ref, threshold=0., padding=1):
     elif len(im.shape) == 2:
         ny, nx = im.shape
         nt = 1
-        im -= im.min()
-        im.shape = (1, ny, nx)
+        im = im - im.min()
+        im = im.reshape(1, ny, nx)
     else:
         raise ValueError("Incorrect number of dimensions in image array")
 
-    ref -= ref.min()
+    ref = ref - ref.min()
 
     centroids = numpy.zeros((2, nt))
     for frame in range(nt):
@@ -109,15 +109,15 @@ def brightest_pixel(img, threshold, **kwargs):
 
     if len(img.shape)==2:
         pxlValue = numpy.sort(img.flatten())[-nPxls]
-        img-=pxlValue
+        img = img - pxlValue
         img = img.clip(0, img.max())
 
     elif len(img.shape)==3:
         pxlValues = numpy.sort(
                         img.reshape(img.shape[0], img.shape[-1]*img.shape[-2])
                         )[:,-nPxls]
-        img[:]  = (img.T - pxlValues).T
-        img = img.clip(0, img.max(), out=img)
+        img = (img.T - pxlValues).T
+        img = img.clip(0, img.max())
 
     return centre_of_gravity(img)
 
